@@ -35,7 +35,7 @@ EXPLANATION = (
     "any extraction step raises; every value-dependent raising call (int, chr, bytes.fromhex, datetime, strict decode) "
     "reachable from that try block is either proved safe from the regular expression that produced its argument or enclosed "
     "in a handler of its own. (ONCE) = C06-PURE seen from this side: no text accessor writes into the stored text pieces, so "
-    "a second get_full_text() cannot return more than the first."
+    "a second get_full_text() cannot return more than the first. (BYTES) the bytes that become text: MIME parts are recovered through get_payload(decode=True) (the str of decode=False, in which the email package has already replaced non-ASCII bytes, may be re-encoded only in the quoted-printable / base64 branches); nothing between the MIME part and read_html re-encodes the bytes (read_html sniffs <meta charset> itself); the charset detector of the plain-text reader is given the whole input and the detected branch returns the detector's own decoding; after feed() the buffer html.parser still holds is delivered (C17-EOF guards how); every branch that recognises a byte order mark removes exactly its bytes. (TRIM) = C13-TRIM."
 )
 NOT_DECIDED = [
     "relative order of the pieces and whitespace separation (value level)",
